@@ -18,9 +18,12 @@ EXPLANATION = (
     "one column per member. R2: member algebra on linear forms - 'single' -> sift(X + s*n), 'flip' -> "
     "1/2 sift(X + s*n) + 1/2 sift(X - s*n) with the same draw n and identical options; ensemble column i is the "
     "mean over members of column i. R3: substituting ensemble_noise = 0 folds every member to sift(X, sift_thresh, "
-    "max_imfs, same carriers). Not decided: statistical independence beyond 'distinct draws'.")
+    "max_imfs, same carriers), and every return path of ensemble_sift delivers the member mean (or that classic sift). "
+    "R1 also: the worker does not modify its arguments (jobs of one chunk share the unpickled X). R4: the complete "
+    "ensemble subtracts from every noise column its own first IMF with the member axis kept for every ensemble size. "
+    "Not decided: statistical independence beyond 'distinct draws'.")
 RULE_TEXT = "one obligation per dispatch site / noise mode / reduction site; distinct = distinct keys"
-FLOORS = {'C08.R1': 5, 'C08.R2': 4, 'C08.R3': 2}
+FLOORS = {'C08.R1': 7, 'C08.R2': 4, 'C08.R3': 3, 'C08.R4': 1}
 PINNED_EXPECT = [('C08.R1', 'emd.sift.ensemble_sift', 'global RNG')]
 
 WORKER = 'emd.sift._sift_with_noise'
@@ -34,6 +37,9 @@ def run(ctx):
     rule_member_algebra(ctx, 'C08.R2')
     rule_member_mean(ctx, 'C08.R2')
     rule_zero_noise(ctx, 'C08.R3')
+    rule_no_shortcut(ctx, 'C08.R3')
+    rule_worker_pure(ctx, 'C08.R1')
+    rule_noise_update(ctx, 'C08.R4')
 
 
 def _bound_for_site(P, fi, site):
@@ -377,3 +383,120 @@ def rule_zero_noise(ctx, rid):
             ctx.violation(rid, w, c2, bad)
         else:
             ctx.passed(rid, w, c2)
+
+
+# ----------------------------------------------------------------------------------------------
+def rule_worker_pure(ctx, rid):
+    """The noise worker leaves its arguments untouched: the jobs of one chunk are unpickled together in the worker, so
+    members dispatched in the same chunk share one X object; adding the noise in place leaks one member's noise into
+    the next (only visible when nensembles > 4 * nprocesses)."""
+    from ..effects import MutationAnalysis
+    P = ctx.P
+    w = P.func(WORKER)
+    mp = MutationAnalysis(P).mutated_params(w)
+    for formal in ('X', 'noise'):
+        c = 'the worker does not modify its %s argument' % formal
+        if formal in mp:
+            ctx.violation(rid, w, c, 'the worker changes %s in place (%s): jobs sent to a worker in one chunk share the '
+                          'unpickled array, so a member starts from data that already contains another member\'s noise'
+                          % (formal, mp[formal][0].what), node=mp[formal][0].node)
+        else:
+            ctx.passed(rid, w, c)
+
+
+def rule_no_shortcut(ctx, rid):
+    """Every way ensemble_sift returns goes through the member mean; a shortcut that returns a classic sift directly
+    must be the classic sift with the same threshold, cap and option carriers (the zero-noise clause)."""
+    P = ctx.P
+    fi = P.func('emd.sift.ensemble_sift')
+    c = 'every return path delivers the member mean (or the classic sift with the same cap and options)'
+    bad = None
+    n = 0
+    for e in Evaluator(P).run(fi, context={'noise_mode': 'single'}):
+        if e.kind != 'return':
+            continue
+        n += 1
+        v = e.value
+        if v[0] == 's' and '@F' in v[1]:
+            continue                        # accumulator filled by the per-IMF loop (C08.R2 checks its content)
+        if v[0] == 'call' and v[1] == 'emd.sift.sift':
+            kw = dict(v[3])
+            missing = [f for f in ('sift_thresh', 'max_imfs', 'imf_opts', 'envelope_opts', 'extrema_opts')
+                       if kw.get(f) != S(f)]
+            if missing:
+                bad = (e, 'a path returns the classic sift without %s: with zero noise the ensemble no longer equals '
+                       'sift(X) with the same cap / options' % ', '.join(missing))
+            continue
+        bad = (e, 'a path returns %s instead of the mean over the members' % show(v)[:60])
+    if bad:
+        ctx.violation(rid, fi, c, bad[1], node=bad[0].node, path=trace_tail(bad[0].state, 6))
+    elif n == 0:
+        ctx.undecided(rid, fi, c, 'no return path')
+    else:
+        ctx.passed(rid, fi, c, '%d return path(s)' % n)
+
+
+def rule_noise_update(ctx, rid):
+    """Complete ensemble: after every layer each noise column loses its own first IMF:
+    noise <- noise - [first column of sift(noise[:, k])  for k]  arranged samples x members, whatever the ensemble
+    size (np.squeeze would drop the member axis when there is one member)."""
+    P = ctx.P
+    fi = P.func('emd.sift.complete_ensemble_sift')
+    ev = Evaluator(P)
+    ev.run(fi, context={'noise_mode': 'single'})
+    c = 'noise columns lose their own first IMF, member axis kept for every ensemble size'
+    vals = []
+    for node, sms in ev.loops_seen.items():
+        for sm in sms:
+            t = sm.entry_env.get('noise')
+            if t is not None:
+                vals.append(('before the layer loop', t, sm.entry_env))
+            for passno, how, e in sm.ends:
+                if how == 'continue' and e.env.get('noise') is not None:
+                    vals.append(('in the layer loop', e.env['noise'], e.env))
+    n = 0
+    bad = None
+    for where, t, env in vals:
+        if not (t[0] == 'bin' and t[1] == '-'):
+            continue
+        n += 1
+        rhs = t[3]
+        sq = [x for x in subterms(rhs) if (x[0] == 'call' and x[1] == 'numpy.squeeze') or (x[0] == 'meth' and x[1] == 'squeeze')]
+        if sq:
+            bad = '%s: the first IMFs are stacked with np.squeeze, which drops the member axis when nensembles == 1 ' \
+                  '(the update then broadcasts to N x N)' % where
+            break
+        core = rhs
+        transposed = False
+        if core[0] == 'attr' and core[2] == 'T':
+            core, transposed = core[1], True
+        elif core[0] == 'meth' and core[1] == 'transpose':
+            core, transposed = core[2], True
+        comp = None
+        if core[0] == 'call' and core[1] in ('numpy.array', 'numpy.asarray', 'numpy.stack', 'numpy.vstack',
+                                             'numpy.column_stack') and core[2] and core[2][0][0] == 'comp':
+            comp = core[2][0]
+            if core[1] == 'numpy.column_stack' or dict(core[3]).get('axis') in (C(1), C(-1)):
+                transposed = not transposed
+        if comp is None or len(comp[3]) != 1:
+            ctx.undecided(rid, fi, c, '%s: cannot read the noise update %s' % (where, show(rhs)[:80]))
+            return
+        var, it, conds = comp[3][0]
+        elt = comp[2]
+        okelt = elt[0] == 'sub' and elt[1] == var and elt[2][0] == 'tuple' and len(elt[2][1]) == 2 \
+            and elt[2][1][0][0] == 'slice' and elt[2][1][1] == C(0)
+        okit = it[0] == 'meth' and it[1] in ('starmap', 'map') and it[3] and it[3][0] in (('ref', 'emd.sift.sift'),
+                                                                                          ('func', 'emd.sift.sift'))
+        if not okelt:
+            bad = '%s: the column subtracted from the noise is %s, not the first IMF r[:, 0]' % (where, show(elt)[:40])
+            break
+        if not okit or not transposed:
+            bad = '%s: the first IMFs are not those of the noise columns arranged samples x members: %s' \
+                  % (where, show(rhs)[:80])
+            break
+    if bad:
+        ctx.violation(rid, fi, c, bad)
+    elif n < 2:
+        ctx.undecided(rid, fi, c, 'expected a noise update before and inside the layer loop, found %d' % n)
+    else:
+        ctx.passed(rid, fi, c, '%d update states' % n)
